@@ -394,7 +394,7 @@ fn find_slots(r: &Reach) -> Slots {
                 _ => {}
             }
         }
-        for (an, spec, _) in t.attribute_spec_iter() {
+        for (an, spec, _) in attribute_specs(*t) {
             if !t.find_attribute_spec(an).is_some_and(|a| r.version.compatible(a.version)) {
                 continue;
             }
@@ -727,7 +727,7 @@ pub fn run(tier: Tier) -> i32 {
         let r = reach(*v);
         let mut seen_specs: Vec<*const CharacterDataSpec> = vec![];
         for t in &r.order {
-            for (an, spec, _) in t.attribute_spec_iter() {
+            for (an, spec, _) in attribute_specs(*t) {
                 let CharacterDataSpec::Enum { items } = spec else { continue };
                 if seen_specs.contains(&(spec as *const _)) || *t == ElementType::ROOT {
                     continue;
